@@ -27,6 +27,17 @@ func c11Faults() []faultKind {
 		{name: "mod0", mk: func() Expr { return Bin("%", N("7"), N("0")) }, selfCont: true},
 		{name: "div0-compound", mk: func() Expr { return &Paren{X: &Assign{Op: "/=", L: V("vnum"), R: N("0")}} }},
 		{name: "div0-computed", mk: func() Expr { return Bin("/", V("vnum"), &Paren{X: Bin("-", V("vnum"), V("vnum"))}) }},
+		{name: "match-literal-against-container", selfCont: true, mk: func() Expr {
+			return &MatchExpr{Subj: Arr(N("1")), Cases: []*MatchCase{{Pats: []Expr{N("1")}, Body: S("first")}, {Pats: []Expr{V("mo")}, Body: S("second")}}}
+		}},
+		{name: "match-nested-literal-against-container", selfCont: true, mk: func() Expr {
+			return &MatchExpr{Subj: Arr(Arr(N("1")), N("2")), Cases: []*MatchCase{{Pats: []Expr{Arr(N("1"), V("mx"))}, Body: S("first")}, {Pats: []Expr{Arr(V("my"), N("2"))}, Body: S("second")}}}
+		}},
+		{name: "match-bad-escape-in-nested-pattern", selfCont: true, mk: func() Expr {
+			return &MatchExpr{Subj: Arr(S("a"), N("2")), Cases: []*MatchCase{{Pats: []Expr{Arr(S("\\q"), V("mx"))}, Body: S("first")}, {Pats: []Expr{Arr(V("my"), N("2"))}, Body: S("second")}}}
+		}},
+		{name: "compare-container-with-its-own-alias", mk: func() Expr { return Bin("==", V("varr"), V("valias")) }},
+		{name: "compare-container-member-with-itself", mk: func() Expr { return Bin("<=", Mem(V("vcyc"), "me"), V("vcyc")) }},
 		{name: "call-null", mk: func() Expr { return CallE(&NullLit{}) }, selfCont: true},
 		{name: "call-number", mk: func() Expr { return CallE(V("vnum"), N("1")) }},
 		{name: "call-string", mk: func() Expr { return CallE(S("s")) }, selfCont: true},
@@ -59,7 +70,7 @@ func c11Setup() []any {
 	rec := &Func{Name: "rec", Params: []string{"n"}, Body: Blk(&Return{X: CallE(V("rec"), Bin("+", V("n"), N("1")))})}
 	idf := &Func{Name: "idf", Params: []string{"p", "q"}, Body: Blk(&Return{X: V("p")})}
 	setup := &Rule{Kind: "BEGIN", Body: Blk(
-		asg(V("vnum"), N("5")), asg(V("vstr"), S("str")), asg(V("vbool"), &BoolLit{V: true}), asg(V("varr"), Arr(N("1"), N("2"))),
+		asg(V("vnum"), N("5")), asg(V("vstr"), S("str")), asg(V("vbool"), &BoolLit{V: true}), asg(V("varr"), Arr(N("1"), N("2"))), asg(V("valias"), V("varr")),
 		asg(V("vcyc"), &ObjectLit{}), asg(Mem(V("vcyc"), "me"), V("vcyc")), Pr(S("early")))}
 	return []any{rec, idf, setup}
 }
@@ -562,7 +573,7 @@ func c11Run(c *Case) {
 func init() {
 	register(&Prop{
 		ID: "C11", Level: "fault_enumeration",
-		Rule:          "fault enumeration. (a) syntax splices: a generated valid host program (starting with BEGIN { print 'early' }) x 25 splice kinds (6 illegal bytes, unmatched ) ] }, lone quote, missing operands, return outside a function, break/continue outside a loop, assignment to a literal / arithmetic result / array literal, unterminated string / regex) inserted at a random token boundary or statement position: outcome must be `syntax` with empty stdout. (b) runtime faults: 28 fault kinds x 35 syntactic positions (every operand slot, prefix operand, callee, call/method argument, array element, object value, index, member base, if/while condition, for initialiser/condition/post, for-in iterable, match subject/body expression/body block, print/printf argument, nested blocks) x 3 contexts (BEGIN; pattern rule on the 2nd of 3 elements; function called from END), plus rule pattern, return value, BEGINFILE, ENDFILE and -r selector placements (the selector alone, after output printed by the same selector, and as second selector after the first was processed); 18 late faults (a printf / arithmetic / index / regex / method site that worked on earlier data and fails on later data, output computed by hand); each planted statement is surrounded by print 'pre' / print 'post'; stdout prefix and `runtime` outcome vs the reference model. Sampled: the same faults planted at random positions of structured programs. Every cell is non-trivial; distinct by (fault, position, context) or program text.",
+		Rule:          "fault enumeration. (a) syntax splices: a generated valid host program (starting with BEGIN { print 'early' }) x 25 splice kinds (6 illegal bytes, unmatched ) ] }, lone quote, missing operands, return outside a function, break/continue outside a loop, assignment to a literal / arithmetic result / array literal, unterminated string / regex) inserted at a random token boundary or statement position: outcome must be `syntax` with empty stdout. (b) runtime faults: 33 fault kinds x 35 syntactic positions (every operand slot, prefix operand, callee, call/method argument, array element, object value, index, member base, if/while condition, for initialiser/condition/post, for-in iterable, match subject/body expression/body block, print/printf argument, nested blocks) x 3 contexts (BEGIN; pattern rule on the 2nd of 3 elements; function called from END), plus rule pattern, return value, BEGINFILE, ENDFILE and -r selector placements (the selector alone, after output printed by the same selector, and as second selector after the first was processed); 18 late faults (a printf / arithmetic / index / regex / method site that worked on earlier data and fails on later data, output computed by hand); each planted statement is surrounded by print 'pre' / print 'post'; stdout prefix and `runtime` outcome vs the reference model. Sampled: the same faults planted at random positions of structured programs. Every cell is non-trivial; distinct by (fault, position, context) or program text.",
 		NumCases:      c11Cases,
 		Run:           c11Run,
 		MinConclusive: func(tier string) int { return 8000 },
